@@ -14,7 +14,6 @@ use crate::empty_ss;
 
 use super::goal::Goal;
 use super::logic_var::*;
-use super::s_linked_list::*;
 use super::built_in_functions::*;
 use super::built_in_predicates::*;
 use super::substitution_set::*;
@@ -457,17 +456,18 @@ impl Unifiable {
                 Unifiable::SComplex(new_terms)
             },
             Unifiable::SLinkedList{term: _, next: _, count: _, tail_var: _} => {
-                let mut this_list = self;
-                let mut new_terms = vec![];
-                let mut vbar = false;  // vertical bar |
-                while let Unifiable::SLinkedList{term: t, next: n,
-                                     count: c, tail_var: tf} = this_list {
-                    new_terms.push(t.recreate_variables(recreated_vars));
-                    if c == 1 && tf { vbar = true; }
-                    this_list = *n;
-                    if this_list == Unifiable::Nil { break; }
+                // Recreate the term of each node, from front to back. The
+                // nodes themselves (count, tail variable flag, end of list)
+                // stay as they are.
+                let mut new_list = self;
+                let mut node = &mut new_list;
+                while let Unifiable::SLinkedList{term, next,
+                                     count: _, tail_var: _} = node {
+                    let t = std::mem::replace(&mut **term, Unifiable::Nil);
+                    **term = t.recreate_variables(recreated_vars);
+                    node = &mut **next;
                 }
-                return make_linked_list(vbar, new_terms);
+                return new_list;
             },
             Unifiable::SFunction{name, terms} => {
                 let mut new_terms: Vec<Unifiable> = vec![];
